@@ -31,8 +31,22 @@ BODYSETS = {
     'sight||sight': ['sight', 'sight'],
     # look-ups in two results at the same time (each thread its own result object)
     'lookup||lookup': ['lookup', 'lookup'],
+    # round 10: objects SHARED between the threads beyond ammunition / atmosphere / winds -
+    # two calculators with EQUAL settings (anything pooled per configuration is then shared between the threads)
+    'firesame||firesame': ['firesame', 'firesame'],
+    # one Shot object fired by two threads, each with its own calculator (line granularity: lazily derived fields of the shot)
+    'fireshot||fireshot': ['fireshot', 'fireshot'],
+    # one result object looked up by two threads in DIFFERENT units; one thread asks a sight for clicks at a target distance taken from a row
+    # of that result while the other merely re-displays rows of it (display units of shared quantities may change at any time, magnitudes never)
+    'lookupsh||lookupsh': ['lookupsh', 'lookupsh'],
+    'sightrow||display': ['sightrow', 'display'],
+    # unit arithmetic in two threads at once (line granularity): every dimension, different magnitudes per thread, tangent-based angular units
+    'units||units': ['units', 'units'],
 }
-LINE_SETS = ('construct||construct',)
+LINE_SETS = ('construct||construct', 'fireshot||fireshot', 'units||units')
+# body sets explored at line granularity IN ADDITION to call granularity (a window that lies between two function entries, e.g. a module-level
+# memo filled in place by a loop without calls): same table in both threads / different tables
+LINE_ALSO = ('fire||fire', 'fire||fire(G1)')
 
 
 def shared_world():
@@ -43,6 +57,19 @@ def shared_world():
             # segment boundaries INSIDE the 1-2 ft bodies, so that the wind cursor advances during the interleaved region
             'sight': pb.Sight('SFP', U.Meter(100), U.Mil(0.1), U.MOA(0.25)),
             'winds': [pb.Wind(U.MPH(5), U.Degree(90), U.Foot(0.3)), pb.Wind(U.MPH(9), U.Degree(200), U.Foot(0.8)), pb.Wind(U.MPH(3), U.Degree(10), U.Foot(1.3))]}
+
+
+def shared_extras(sw):
+    """shared objects of the round-10 body sets (built lazily: only those sets pay for them)"""
+    import py_ballisticcalc as pb
+    U = pb.Unit
+    if 'shot' not in sw:
+        sw['shot'] = pb.Shot(pb.Weapon(U.Inch(2.5), U.Inch(11), U.MOA(5)), sw['ammo'], look_angle=U.Degree(3), atmo=sw['atmo'], cant_angle=U.Degree(10),
+                             winds=[pb.Wind(U.MPH(9), U.Degree(200), U.Foot(0.8)), pb.Wind(U.MPH(5), U.Degree(90), U.Foot(0.3)), pb.Wind(U.MPH(3), U.Degree(10), U.Foot(1.3))])
+        # the result object comes from ANOTHER shot object: the shared shot reaches the threads unused (lazily derived fields still unset)
+        other = pb.Shot(pb.Weapon(U.Inch(2.5), U.Inch(11), U.MOA(5)), sw['ammo'], look_angle=U.Degree(3), atmo=sw['atmo'], cant_angle=U.Degree(10), winds=list(sw['winds']))
+        sw['hr'] = pb.Calculator().fire(other, U.Foot(3.0), U.Foot(0.5), True)
+    return sw
 
 
 def body(kind, k, sw):
@@ -100,6 +127,44 @@ def body(kind, k, sw):
             return ['ok', res]
         if kind == 'fire':
             return ['ok', traj_bits(c.fire(shot, U.Foot(1.0), U.Foot(0.5)).trajectory)]
+        if kind == 'firesame':
+            return ['ok', traj_bits(pb.Calculator().fire(shot, U.Foot(1.0), U.Foot(0.5)).trajectory)]
+        if kind == 'fireshot':
+            return ['ok', traj_bits(c.fire(sw['shot'], U.Foot(1.0 + 0.2 * k), U.Foot(0.5)).trajectory)]
+        if kind == 'lookupsh':
+            from py_ballisticcalc import helpers as HP
+            hr, un = sw['hr'], (U.Foot, U.Meter, U.Inch)[k]
+            res = []
+            for q_ft in (0.6 + 0.9 * k, 2.2 - 0.7 * k):
+                q = U.Foot(q_ft) >> un
+                res.append([HP.find_index_of_point_for_distance(hr, q, un), bits(HP.find_time_for_distance_in_shot(hr, q, un)),
+                            hr.index_at_distance(un(q)), bits(hr.get_at_distance(un(q)).time), bits(hr.trajectory[2 + k].distance >> un)])
+            return ['ok', res]
+        if kind == 'sightrow':
+            row = sw['hr'].trajectory[3]
+            a_ = sw['sight'].get_adjustment(row.distance, U.Mil(1.3), U.Mil(-0.4), 4)
+            b_ = sw['sight'].get_trajectory_adjustment(row, 6)
+            return ['ok', [bits(a_.vertical), bits(a_.horizontal), bits(b_.vertical), bits(b_.horizontal)]]
+        if kind == 'units':
+            res = []
+            for v0, units in ((30.0 + 7 * k, ('Degree', 'CmPer100m', 'InchesPer100Yd', 'Mil', 'MOA', 'Thousandth', 'MRad', 'Radian')), (100.0 + 9 * k, ('Yard', 'Meter', 'Inch', 'Mile', 'NauticalMile')),
+                              (15.0 - 40 * k, ('Celsius', 'Fahrenheit', 'Kelvin', 'Rankin')), (800.0 + k, ('MPS', 'FPS', 'KMH', 'KT', 'MPH')), (29.9 - k, ('InHg', 'hPa', 'PSI', 'MmHg', 'Bar')),
+                              (168.0 + k, ('Grain', 'Gram', 'Pound', 'Newton', 'Ounce', 'Kilogram')), (2000.0 + k, ('FootPound', 'Joule'))):
+                q = U[units[0]](v0)
+                for un in units:
+                    res.append(bits(q >> U[un]))
+                    res.append(bits(U[un](q >> U[un]).raw_value))
+                res.append([str(q), hash(q) == hash(U[units[0]](v0))])
+            return ['ok', res]
+        if kind == 'display':
+            # re-displaying shared quantities is legitimate at any time; what this thread reads back is a magnitude
+            res = []
+            for un in (U.Yard, U.Inch, U.Meter):      # ends on a unit that is NOT the preferred one
+                for row in sw['hr'].trajectory[2:5]:
+                    row.distance << un
+                    res.append(bits(row.distance.raw_value))
+            (sw['sight'].scale_factor << U.Yard) and (sw['sight'].v_click_size << U.MOA)
+            return ['ok', res]
         if kind == 'firex':
             return ['ok', traj_bits(c.fire(shot, U.Foot(1.5), U.Foot(0.5), True, 0.0001).trajectory)]
         if kind == 'zero':
@@ -115,6 +180,8 @@ def body(kind, k, sw):
 
 def make_bodies(bs):
     sw = shared_world()
+    if any(k in ('fireshot', 'lookupsh', 'sightrow', 'display') for k in BODYSETS[bs]):
+        shared_extras(sw)
     return [body(kind, k, sw) for k, kind in enumerate(BODYSETS[bs])], sw
 
 
@@ -217,6 +284,7 @@ def level(cell):
 def monitor(cell):
     """shared-write monitor: in a solo traced run, at how many scheduling points does shared state differ from its value at entry?"""
     bs, k = cell
+    H.restore_pristine()       # hermetic like every schedule execution: a memo already filled by an earlier case of this worker would hide the window
     bodies, sw = make_bodies(bs)
 
     def shared_fp():
@@ -328,19 +396,19 @@ def explore(ctx):
     if ctx.viol:
         ctx.cap('further schedule exploration skipped: violating schedules already found')
         return
-    # line granularity: always for a tiny fire||fire in thorough, and whenever the monitor saw a shared-state window
-    if windows or not quick:
-        bs = 'fire||fire'
-        lp = []
-        for order in ((0, 1), (1, 0)):
+    # line granularity for a tiny fire||fire, in both tiers and whatever the monitor says: every line point of the base run as first pre-emption
+    # (round 10: a module-level memo published before it is filled has its whole window between two function entries)
+    lp = []
+    for bs in LINE_ALSO:
+        for order in (((0, 1),) if (quick and bs == 'fire||fire') else ((0, 1), (1, 0))):
+            H.restore_pristine()
             bodies, sw = make_bodies(bs)
             base = sched.Run(bodies, {}, order, 'line')
             base.run()
-            step = max(1, len(base.points) // (1500 if quick else 6000))
-            for i in range(0, len(base.points), step):
+            for i in range(len(base.points)):
                 lp.append([bs, list(order), i, 1, 'line'])
-        ctx.run_part('level', lp)
-        ctx.extra['line_granularity_schedules'] = len(lp)
+    ctx.run_part('level', lp)
+    ctx.extra['line_granularity_schedules'] = len(lp)
     if not quick:
         ctx.run_part('free_running', [[bs, 200] for bs in ('fire||fire', 'fire||zero')])
     ctx.extra['preemption_bound_completed'] = 1 if quick else 2
